@@ -23,12 +23,7 @@ import (
 // tag's natural Go type (int8, int16, int32, int64, float32, float64, string).
 func (c *Ctx) NaturalTypes() []core.Ob {
 	want := map[string]string{"TagByte": "int8", "TagShort": "int16", "TagInt": "int32", "TagLong": "int64", "TagFloat": "float32", "TagDouble": "float64", "TagString": "string"}
-	var dec *tagSwitch
-	for _, ts := range c.tagSwitches("nbt") {
-		if ts.fn == "nbt.(*Decoder).unmarshal" && len(ts.cases) >= 9 {
-			dec = ts
-		}
-	}
+	dec := c.dispatchOf("Decoder", true)
 	if dec == nil {
 		return []core.Ob{{Rule: "T-NATURAL", Key: "decoder-dispatch", Status: core.Violated, Armed: true, Want: "decoder dispatch found", Got: "not found"}}
 	}
@@ -95,9 +90,9 @@ func (c *Ctx) NaturalTypes() []core.Ob {
 // SNBTLiteralWidths: each integer suffix is parsed with strconv.ParseInt of the
 // bit size of its tag (out-of-range literals are errors, not wrapped values).
 func (c *Ctx) SNBTLiteralWidths() []core.Ob {
-	fn := c.Fn("nbt.parseLiteral")
+	fn := c.literalParser()
 	if fn == nil {
-		return []core.Ob{{Rule: "T-SNBTSUF", Key: "literal-widths", Status: core.Violated, Armed: true, Want: "parseLiteral exists", Got: "not found"}}
+		return []core.Ob{{Rule: "T-SNBTSUF", Key: "literal-widths", Status: core.Violated, Armed: true, Want: "the SNBT literal classifier exists", Got: "not found"}}
 	}
 	fd, pk := c.astFuncDecl(fn)
 	info := pk.TypesInfo
@@ -118,7 +113,7 @@ func (c *Ctx) SNBTLiteralWidths() []core.Ob {
 			return true
 		}
 		seen[tag] = true
-		o := core.Ob{Rule: "T-SNBTSUF", Key: "literal-width:" + tag, Pos: c.P.Pos(cc.Pos()), Func: "nbt.parseLiteral", Armed: true, Status: core.OK,
+		o := core.Ob{Rule: "T-SNBTSUF", Key: "literal-width:" + tag, Pos: c.P.Pos(cc.Pos()), Func: core.FnName(fn), Armed: true, Status: core.OK,
 			Want: "a " + tag + " literal is parsed by strconv.ParseInt(s, 10, " + width[tag] + "): a value outside the tag's range is an error"}
 		okParse := false
 		ast.Inspect(cc, func(m ast.Node) bool {
@@ -665,7 +660,10 @@ func (c *Ctx) ReceiveBufferPerPacket() []core.Ob {
 // OmitEmptyTestsField: the encoder applies omitempty to the struct field value
 // itself, before any dereferencing done for tag selection.
 func (c *Ctx) OmitEmptyTestsField() []core.Ob {
-	fn := c.Fn("nbt.(*Encoder).writeValue")
+	var fn *ssa.Function
+	if ws := c.encoderDispatch(); ws != nil {
+		fn = c.Fn(ws.fn)
+	}
 	o := core.Ob{Rule: "R-ORDER", Key: "nbt.writeValue:omitempty-on-the-field-itself", Armed: true, Status: core.OK,
 		Want: "isEmptyValue is applied to the field's own value (a nil pointer / nil interface is empty, a pointer to zero is not), not to the value getTagType dereferenced"}
 	if fn == nil {
@@ -673,15 +671,25 @@ func (c *Ctx) OmitEmptyTestsField() []core.Ob {
 		return []core.Ob{o}
 	}
 	o.Pos, o.Func = c.P.Pos(fn.Pos()), core.FnName(fn)
-	calls := callsIn(fn, func(n string, _ *ssa.CallCommon) bool { return strings.HasSuffix(n, "/nbt.isEmptyValue") })
+	// the emptiness test: a nbt function (reflect.Value) bool; the tag selector: a nbt function returning (byte, reflect.Value)
+	calls := callsIn(fn, func(n string, cc *ssa.CallCommon) bool {
+		sc := cc.StaticCallee()
+		if sc == nil || !inPkgs(sc, "nbt") || len(sc.Params) != 1 || sc.Params[0].Type().String() != "reflect.Value" || sc.Signature.Results().Len() != 1 {
+			return false
+		}
+		b, ok := sc.Signature.Results().At(0).Type().Underlying().(*types.Basic)
+		return ok && b.Kind() == types.Bool
+	})
 	if len(calls) == 0 {
-		o.Status, o.Got = core.Violated, "no isEmptyValue call in the struct field loop"
+		o.Status, o.Got = core.Violated, "no emptiness test (func(reflect.Value) bool) in the struct field loop"
 	}
 	for _, ci := range calls {
 		arg := ci.Common().Args[0]
 		if ex, ok := arg.(*ssa.Extract); ok {
-			if cl, ok := ex.Tuple.(*ssa.Call); ok && strings.HasSuffix(calleeName(cl.Common()), "/nbt.getTagType") {
-				o.Status, o.Got = core.Violated, "omitempty is tested on the value returned by getTagType (already dereferenced / allocated)"
+			if cl, ok := ex.Tuple.(*ssa.Call); ok {
+				if sc := cl.Common().StaticCallee(); sc != nil && inPkgs(sc, "nbt") && sc.Signature.Results().Len() == 2 && sc.Signature.Results().At(1).Type().String() == "reflect.Value" {
+					o.Status, o.Got = core.Violated, "omitempty is tested on the value returned by the tag selector (already dereferenced / allocated)"
+				}
 			}
 		}
 	}
